@@ -273,6 +273,15 @@ pub fn generate_c02(a: &Args) {
     let (rmax, nmax) = if is_thorough(a) { (3, 5) } else { (3, 4) };
     let mut rng2 = rng.clone();
     all_matrices(rmax, nmax, |rows, n| enc_event(&mut out, rows, n, &mut rng2));
+    if is_thorough(a) {
+        // every square 4x4 matrix and every 2x6 matrix as well
+        for (r, n) in [(4usize, 4usize), (2, 6)] {
+            for x in 0u64..(1u64 << (r * n)) {
+                let rows: Vec<Vec<usize>> = (0..r).map(|j| (0..n).filter(|&c| (x >> (j * n + c)) & 1 == 1).collect()).collect();
+                enc_event(&mut out, &rows, n, &mut rng);
+            }
+        }
+    }
     let (small, big) = if is_thorough(a) { (25000, 3000) } else { (700, 40) };
     for i in 0..small {
         let (rows, n) = c02_random(&mut rng, i, false);
